@@ -91,6 +91,7 @@ impl Store {
     }
 
     pub fn set_message(&self, id: &str, status: MessageStatus) -> Result<()> {
+        let _guard = self.message_status_guard();
         if let Ok(mut message) = self.messages().find(id) {
             message.status = status;
             message.update_time = utils::time::time_millis();
@@ -104,6 +105,7 @@ impl Store {
 
     pub fn set_message_with(&self, pid: &str, tid: &str, status: MessageStatus) -> Result<bool> {
         debug!("set_message_with pid={pid} tid={tid} status={status:?}");
+        let _guard = self.message_status_guard();
         let q = Query::new().push(
             Cond::and()
                 .push(Expr::eq("pid", pid.to_string()))
@@ -131,6 +133,7 @@ impl Store {
         max_message_retry_times: i32,
         f: F,
     ) -> Result<()> {
+        let _guard = self.message_status_guard();
         let q = Query::new().set_limit(300).push(
             Cond::and()
                 .push(Expr::eq("status", MessageStatus::Created))
@@ -160,6 +163,7 @@ impl Store {
     }
 
     pub fn resend_error_messages(&self) -> Result<()> {
+        let _guard = self.message_status_guard();
         let collection = self.messages();
         let q = Query::new().push(Cond::and().push(Expr::eq("status", MessageStatus::Error)));
         if let Ok(messages) = collection.query(&q) {
